@@ -71,7 +71,11 @@ claim('C04', 'saturation-guard discharge on every counter site + argument proven
       'Thin: all 68 counter +/-1 sites are behind their saturation guard; all 89 state accesses of the builtin FBs use the call\'s own instance id and no global/static storage; no OS clock is reachable and elapsed time is ctx.now minus the instance\'s own last-call time (written only from ctx.now); every state variable an FB reads (and every output) is written back on every successful path, edge memory from this call\'s sample; RS/SR test their dominant input first. Q/ET values against the IEC diagrams and boundary equalities are value-level and not decided.',
       _TB, 'DESIGN.md section 4 / C04')
 
+claim('C02', 'operator/precedence table extraction (type-checked HIR) + arm-wise machine-operation agreement + edge-cut control-dependence (short circuit) + loop SCC placement/polarity rules over rustc MIR',
+      'Thin: decides the structural clauses only. Operator token tables of lowering and type checker agree (one known finding, F26: `&` unknown to the checker); in the arithmetic/compare kernels the arm of operator X computes with machine operation X; integer results are built only through the widen -> try_from range-check constructors; the right operand of AND/OR is control-dependent on the left value with the IEC polarity; WHILE tests before the body, REPEAT after, with the right polarity, and re-tests on every iteration; FOR rejects step 0, tests before each iteration, leaves only on strict passing of the end value in the direction of the step, and increments on every way back (also CONTINUE); binding powers order the operator classes per the spec; output parameters are written back after the callee frame is popped. Numerical agreement with a reference evaluator on all programs/inputs is value-level and not decided.',
+      _TB, 'DESIGN.md section 4 / C02')
+
 _PENDING = 'check not built yet in this commit (work in progress; see DESIGN.md section 10 for the build order)'
-for _p in ['C02','C16']:
+for _p in ['C16']:
     na(_p, _PENDING)
 na('C15', 'formatting token-sequence preservation and idempotence are equalities between values computed by string manipulation; no shape-of-code fact is a necessary condition that a realistic breaking edit would violate (DESIGN.md section 5)')
